@@ -27,6 +27,14 @@
 namespace bloc
 {
 
+static Integer toInteger(Numeric d)
+{
+  /* it must fit in an integer: NaN fails the test */
+  if (!(d >= Numeric(INT64_MIN) && d < -Numeric(INT64_MIN)))
+    throw RuntimeError(EXC_RT_OUT_OF_RANGE);
+  return Integer(d);
+}
+
 Value& RAWExpression::value(Context & ctx) const
 {
   if (_args.empty())
@@ -53,7 +61,7 @@ Value& RAWExpression::value(Context & ctx) const
       n = *val.integer();
       break;
     case Type::NUMERIC:
-      n = Integer(*val.numeric());
+      n = toInteger(*val.numeric());
       break;
     case Type::TABCHAR:
       return val;
@@ -73,7 +81,7 @@ Value& RAWExpression::value(Context & ctx) const
           v = *a1.integer();
           break;
         case Type::NUMERIC:
-          v = Integer(*a1.numeric());
+          v = toInteger(*a1.numeric());
           break;
         default:
           throw RuntimeError(EXC_RT_FUNC_ARG_TYPE_S, KEYWORDS[FUNC_RAW]);
